@@ -59,10 +59,60 @@ func cloneSpec(p *ProjectSpec) *ProjectSpec {
 	return &c
 }
 
+// wantStatus: the status map an update from cur to next must return
+func wantStatus(cur, next *ProjectSpec) map[string]string {
+	want := map[string]string{}
+	for _, q := range next.Procs {
+		if o := cur.Proc(q.Name); o == nil {
+			want[q.Name] = "added"
+		} else if launchKey(o) != launchKey(q) {
+			want[q.Name] = "updated"
+		}
+	}
+	for _, o := range cur.Procs {
+		if next.Proc(o.Name) == nil {
+			want[o.Name] = "removed"
+		}
+	}
+	return want
+}
+
+func statusDiff(want, got map[string]string) []string {
+	var diff []string
+	for k, v := range want {
+		if got[k] != v {
+			diff = append(diff, fmt.Sprintf("%s: want %s got %q", k, v, got[k]))
+		}
+	}
+	for k, v := range got {
+		if _, ok := want[k]; !ok {
+			diff = append(diff, fmt.Sprintf("%s: want nothing got %q", k, v))
+		}
+	}
+	sort.Strings(diff)
+	return diff
+}
+
+func specNames(p *ProjectSpec) []string {
+	var r []string
+	for _, q := range p.Procs {
+		r = append(r, q.Name)
+	}
+	sort.Strings(r)
+	return r
+}
+
 func checkC14(sc *Scenario, res *RunResult, t *Truth) []Violation {
 	var vs []Violation
 	add := func(class, disc, msg string, seq int) {
 		vs = append(vs, Violation{"C14", class, disc, msg, seq})
+	}
+	if sc.Arm == "updaterace" {
+		return checkC14Race(sc, t)
+	}
+	vs = append(vs, checkC14Launches(sc, t)...)
+	if len(vs) > 0 {
+		return vs
 	}
 	cur := sc.Project
 	var calls []*Call
@@ -109,32 +159,8 @@ func checkC14(sc *Scenario, res *RunResult, t *Truth) []Violation {
 				add("valid-update-rejected", "", fmt.Sprintf("%s failed: %s", c.Desc, c.Err), c.RetSeq)
 				return vs
 			}
-			want := map[string]string{}
-			for _, q := range next.Procs {
-				if o := cur.Proc(q.Name); o == nil {
-					want[q.Name] = "added"
-				} else if launchKey(o) != launchKey(q) {
-					want[q.Name] = "updated"
-				}
-			}
-			for _, o := range cur.Procs {
-				if next.Proc(o.Name) == nil {
-					want[o.Name] = "removed"
-				}
-			}
 			got, _ := c.Data.(map[string]string)
-			var diff []string
-			for k, v := range want {
-				if got[k] != v {
-					diff = append(diff, fmt.Sprintf("%s: want %s got %q", k, v, got[k]))
-				}
-			}
-			for k, v := range got {
-				if _, ok := want[k]; !ok {
-					diff = append(diff, fmt.Sprintf("%s: want nothing got %q", k, v))
-				}
-			}
-			sort.Strings(diff)
+			diff := statusDiff(wantStatus(cur, next), got)
 			if len(diff) > 0 {
 				add("wrong-update-status", strings.SplitN(diff[0], ":", 2)[1], fmt.Sprintf("%s returned %v: %s", c.Desc, got, strings.Join(diff, "; ")), c.RetSeq)
 				return vs
@@ -256,7 +282,7 @@ func checkC14(sc *Scenario, res *RunResult, t *Truth) []Violation {
 								return vs
 							}
 						}
-						if in.ExecSeq > lo && in.ExecSeq <= hi && o.Restart == "" {
+						if in.ExecSeq > lo && in.ExecSeq <= hi && o.Restart == "" && liveProc(o.Name, lo) != nil {
 							add("unchanged-process-relaunched", "", fmt.Sprintf("%s: the configuration of %s did not change but it was launched again (pid %d)", last.Desc, o.Name, in.Pid), in.ExecSeq)
 							return vs
 						}
@@ -290,6 +316,118 @@ func checkC14(sc *Scenario, res *RunResult, t *Truth) []Violation {
 	return vs
 }
 
+// checkC14Launches: every command launched outside an update request belongs to the
+// configuration in force at that instant (that of the last update that returned)
+func checkC14Launches(sc *Scenario, t *Truth) []Violation {
+	var vs []Violation
+	type span struct {
+		call *Call
+		spec *ProjectSpec
+	}
+	var ups []span
+	for _, c := range t.Calls {
+		if c.Client == "updater" && c.Op == "update" {
+			n := 0
+			fmt.Sscanf(c.Desc[strings.LastIndexByte(c.Desc, ',')+1:], "%d", &n)
+			if n < len(sc.Updates) {
+				ups = append(ups, span{c, sc.Updates[n]})
+			}
+		}
+	}
+	for _, in := range t.Insts {
+		if in.Kind != "simproc" {
+			continue
+		}
+		i := strings.Index(in.Token, ".v")
+		if i < 0 {
+			continue
+		}
+		name := in.Token[:i]
+		force := sc.Project
+		var after *Call
+		busy := false
+		for _, u := range ups {
+			if u.call.RetSeq >= 0 && u.call.RetSeq < in.ExecSeq {
+				force, after = u.spec, u.call
+			} else if u.call.CallSeq < in.ExecSeq {
+				busy = true // launched while an update was under way
+			}
+		}
+		if busy || after == nil {
+			continue
+		}
+		q := force.Proc(name)
+		if q == nil {
+			vs = append(vs, Violation{"C14", "removed-process-launched", "", fmt.Sprintf("%s was removed by %s (returned at t=%v) but a command of it (pid %d, %s) was launched at t=%v", name, after.Desc, after.RetT, in.Pid, in.Token, in.ExecT), in.ExecSeq})
+			return vs
+		}
+		bad := ""
+		if in.Token != q.Token {
+			bad = fmt.Sprintf("command simproc %s instead of simproc %s", in.Token, q.Token)
+		}
+		for _, kv := range q.Env {
+			k := kv[:strings.IndexByte(kv, '=')]
+			if v, _ := envOf(in, k); v != kv[len(k)+1:] && bad == "" {
+				bad = fmt.Sprintf("%s=%q instead of %s", k, v, kv)
+			}
+		}
+		if q.WorkingDir != "" && in.Dir != q.WorkingDir && !strings.HasSuffix(in.Dir, "/"+q.WorkingDir) && bad == "" {
+			bad = fmt.Sprintf("directory %q instead of %s", in.Dir, q.WorkingDir)
+		}
+		if q.Disabled && bad == "" {
+			bad = "although it is disabled"
+		}
+		if bad != "" {
+			vs = append(vs, Violation{"C14", "launched-with-old-configuration", "later", fmt.Sprintf("after %s (returned at t=%v) %s was launched at t=%v with %s", after.Desc, after.RetT, name, in.ExecT, bad), in.ExecSeq})
+			return vs
+		}
+	}
+	return vs
+}
+
+// checkC14Race: two update requests overlap; the outcome must be that of one of the two orders
+func checkC14Race(sc *Scenario, t *Truth) []Violation {
+	var vs []Violation
+	var x [2]*Call
+	var final *Call
+	for _, c := range t.Calls {
+		switch {
+		case c.Client == "x1" && c.Op == "update":
+			x[0] = c
+		case c.Client == "x2" && c.Op == "update":
+			x[1] = c
+		case c.Client == "updater" && c.Op == "audit":
+			final = c
+		}
+	}
+	if x[0] == nil || x[1] == nil || final == nil || x[0].RetSeq < 0 || x[1].RetSeq < 0 || final.RetSeq < 0 || x[0].RetSeq > final.CallSeq || x[1].RetSeq > final.CallSeq {
+		return nil
+	}
+	a, ok := final.Data.(*Audit)
+	if !ok || a == nil || len(sc.Updates) < 2 || strings.HasPrefix(x[0].Err, "harness:") || strings.HasPrefix(x[1].Err, "harness:") {
+		return nil
+	}
+	if x[0].Err != "" || x[1].Err != "" {
+		return []Violation{{"C14", "valid-update-rejected", "concurrent", fmt.Sprintf("overlapping updates failed: %q / %q", x[0].Err, x[1].Err), final.RetSeq}}
+	}
+	got := append([]string{}, a.Names...)
+	sort.Strings(got)
+	st := [2]map[string]string{}
+	st[0], _ = x[0].Data.(map[string]string)
+	st[1], _ = x[1].Data.(map[string]string)
+	for first := 0; first < 2; first++ {
+		second := 1 - first
+		if !eqStrs(got, specNames(sc.Updates[second])) {
+			continue
+		}
+		if len(statusDiff(wantStatus(sc.Project, sc.Updates[first]), st[first])) == 0 && len(statusDiff(wantStatus(sc.Updates[first], sc.Updates[second]), st[second])) == 0 {
+			return nil
+		}
+	}
+	vs = append(vs, Violation{"C14", "concurrent-updates-not-serialisable", "", fmt.Sprintf("two overlapping updates to %v and %v (from %v) returned %v and %v and left %v: not the outcome of either order", specNames(sc.Updates[0]), specNames(sc.Updates[1]), specNames(sc.Project), st[0], st[1], got), final.RetSeq})
+	return vs
+}
+
 func genC14(r *R, sc *Scenario, tier string) {
 	spec := &ProjectSpec{}
 	sc.Project = spec
@@ -315,6 +453,13 @@ func genC14(r *R, sc *Scenario, tier string) {
 		}
 		if r.P(200) && life < 0 {
 			p.Restart = Pick(r, "on_failure", "always")
+		}
+		if r.P(200) {
+			// keeps exiting and waiting out its back-off: updates find it between two launches
+			ts := sc.Scripts[name+".*"]
+			ts.Launches[0].LifeMs, ts.Launches[0].Exit = Pick(r, 300, 800), 1
+			p.Restart = "always"
+			p.Backoff = iptr(Pick(r, 2, 3))
 		}
 		if r.P(120) {
 			p.Disabled = true
@@ -351,7 +496,34 @@ func genC14(r *R, sc *Scenario, tier string) {
 				continue
 			case r.P(350):
 				// change something that reaches the command or decides about its launches
-				switch r.Intn(7) {
+				switch r.Intn(9) {
+				case 7, 8:
+					// a dependency changes its condition, or is swapped for another one
+					var cands []string
+					for _, o := range np.Procs {
+						if o.Name < p.Name && !o.Disabled && !hasStr(gone, o.Name) {
+							cands = append(cands, o.Name)
+						}
+					}
+					switch {
+					case len(p.DependsOn) > 0 && r.P(500):
+						for d, c := range p.DependsOn {
+							if c == "process_started" {
+								p.DependsOn[d] = "process_completed"
+							} else {
+								p.DependsOn[d] = "process_started"
+							}
+						}
+					case len(p.DependsOn) > 0 && len(cands) > 1:
+						for d := range p.DependsOn {
+							delete(p.DependsOn, d)
+						}
+						p.DependsOn[cands[r.Intn(len(cands))]] = "process_started"
+					case len(cands) > 0:
+						p.DependsOn = map[string]string{cands[r.Intn(len(cands))]: "process_started"}
+					default:
+						p.Backoff = iptr(u + 5)
+					}
 				case 5:
 					p.Disabled = !p.Disabled
 				case 6:
@@ -411,6 +583,42 @@ func genC14(r *R, sc *Scenario, tier string) {
 		ops = append(ops, Op{AtMs: at, Op: "audit", Args: gone})
 		cur = np
 	}
+	if r.P(200) && n >= 2 {
+		// two overlapping updates; the first one takes a while (a removed process dies slowly)
+		sc.Arm = "updaterace"
+		slow := spec.Procs[0]
+		if ts := sc.Scripts[slow.Name+".*"]; ts != nil {
+			ts.Launches[0].LifeMs, ts.Launches[0].Exit, ts.Launches[0].TermLagMs = -1, 0, Pick(r, 500, 1000, 2000)
+		}
+		slow.Restart, slow.Backoff, slow.Disabled, slow.DependsOn = "", nil, false, nil
+		sc.Updates = nil
+		for k := 0; k < 2; k++ {
+			np := cloneSpec(spec)
+			np.Procs = np.Procs[1:] // both remove the slow one
+			for _, q := range np.Procs {
+				delete(q.DependsOn, slow.Name)
+				if len(q.DependsOn) == 0 {
+					q.DependsOn = nil
+				}
+			}
+			np.Procs = append(np.Procs, mk(fmt.Sprintf("n%d", k)))
+			if r.P(400) && len(np.Procs) > 2 {
+				drop := np.Procs[1].Name
+				np.Procs = append(np.Procs[:1], np.Procs[2:]...)
+				for _, q := range np.Procs {
+					delete(q.DependsOn, drop)
+					if len(q.DependsOn) == 0 {
+						q.DependsOn = nil
+					}
+				}
+			}
+			sc.Updates = append(sc.Updates, np)
+		}
+		d := Pick(r, 0, 100, 300)
+		sc.Clients = append(sc.Clients, Client{Name: "x1", Ops: []Op{{AtMs: 2000, Op: "update", N: 0}}}, Client{Name: "x2", Ops: []Op{{AtMs: 2000 + d, Op: "update", N: 1}}})
+		at = 7000
+		ops = []Op{{AtMs: 1500, Op: "audit"}, {AtMs: at, Op: "audit"}}
+	}
 	sc.Clients = append(sc.Clients, Client{Name: "updater", Ops: ops})
 	if r.P(300) {
 		var pops []Op
@@ -423,7 +631,9 @@ func genC14(r *R, sc *Scenario, tier string) {
 	sc.Strategy.StallPermille = 0
 	sc.IterMode = Pick(r, 0, 0, 1, 2, 3)
 	sc.IterRot = r.Intn(7)
-	sc.RunForMs = at + 1500
+	sc.RunForMs = at + 4000
 	sc.QuietMs = 1000
-	sc.Arm = "update"
+	if sc.Arm == "" {
+		sc.Arm = "update"
+	}
 }
